@@ -48,6 +48,10 @@ FIXED = [
      'dense online: bounded once/historically nested under each other (or inside since[a,b]) and fed in several updates gave decreasing stamps, wrong values or an intersection exception'),
     ('F17', ['C05', 'C17'], 'fix: dense-time online monitor failed from the second update on operators whose operands are all constants',
      "dense online: an operator with only constant operands ('1 - 2', '1 >= 0') raised 'Unexpected case in the intersection' from the second update on"),
+    ('F20', ['C05', 'C17'], 'fix: dense-time online binary operations crashed when one operand',
+     "dense online: binary operations raised TypeError ('float' object is not subscriptable) when one operand's first interval lies before the other operand's first sample"),
+    ('F06', ['C10'], 'fix: reset() of online monitors failed',
+     'reset(): AttributeError with sub-specifications, AttributeError before the first update, no reset at all for dense time (operations kept their buffers)'),
 ]
 
 OPEN = [
